@@ -9,6 +9,7 @@ import (
 	"encoding/json"
 	"errors"
 	"fmt"
+	"io"
 	"math/rand"
 	"os"
 	"os/exec"
@@ -47,6 +48,7 @@ import (
 const (
 	c45SigTruncated = "interrupted-save-leaves-truncated-config"
 	c45SigCorrupt   = "interrupted-save-leaves-neither-old-nor-new"
+	c45SigMissing   = "interrupted-save-leaves-no-config-file"
 	c45SigComplete  = "completed-save-is-not-the-new-config"
 	c45SigPanic     = "save-path-crashed"
 	c45ChildEnv     = "VERIF_C45_CHILD"
@@ -292,6 +294,48 @@ func TestC45Child(t *testing.T) {
 		fmt.Fprintf(out, "C45CHILD-SURVIVED %s\n", b)
 		out.Flush()
 		os.Exit(0)
+	case "syscall":
+		// Crash at a system-call boundary: everything the save needs is prepared first, on an
+		// OS thread this goroutine is locked to; then the child reports the thread id and
+		// blocks reading fd 3. The parent attaches `strace -p <tid>` with a SIGKILL injection
+		// at the N-th entry of one system call and releases the child: from here on only the
+		// save itself runs on the traced thread, so N counts the save's own calls.
+		runtime.LockOSThread()
+		cfg, err := client.NewConfig(job.Path)
+		if err != nil {
+			fmt.Println("C45CHILD-MACHINERY harness: previous config does not load:", err)
+			os.Exit(3)
+		}
+		var save func()
+		switch job.SavePath {
+		case "writeFile":
+			cfg.Apex, cfg.Certificate, cfg.PrivKey, cfg.Tunnels = job.New.Apex, job.New.Cert, job.New.Key, job.New.Tunnels
+			save = func() { cfg.VerifWriteFile() }
+		case "rebuild":
+			c := client.VerifNewClient(context.Background(), client.ClientConfig{Logger: zap.NewNop(), Configuration: cfg}, nil)
+			save = func() { c.RebuildTunnels(job.New.Tunnels) }
+		case "apex":
+			c := client.VerifNewClient(context.Background(), client.ClientConfig{Logger: zap.NewNop(), Configuration: cfg}, nil)
+			save = func() { c.UpdateApex(job.New.Apex) }
+		default:
+			fmt.Println("C45CHILD-MACHINERY harness: unknown save path")
+			os.Exit(3)
+		}
+		runtime.GC() // less runtime activity on this thread during the save
+		os.Stdout.WriteString(fmt.Sprintf("C45CHILD-READY tid=%d\n", syscall.Gettid()))
+		var one [1]byte
+		for {
+			n, err := syscall.Read(3, one[:])
+			if err == syscall.EINTR {
+				continue
+			}
+			if n != 1 || err != nil {
+				os.Exit(4) // parent gave up
+			}
+			break
+		}
+		save()
+		syscall.Exit(0)
 	case "efbig":
 		signal.Ignore(syscall.SIGXFSZ)
 		cuts := job.Cuts
@@ -454,8 +498,8 @@ func loadImage(dir string, img []byte) (c45State, error) {
 
 func TestC45(t *testing.T) {
 	rec := ev.New(t, "C45")
-	rec.Rule("Case = (previous config, new config, save path, cut n, fault mode). Configs: PEM certificate (1-2 blocks), PEM key (one real ed25519 key per run, else random PEM of 3 sizes), 0..5 tunnels over http/https/tcp/unix targets with YAML-hostile option strings; old file mode 0600/0644, optionally with a hand-written comment; save paths Config.writeFile (certificate+key+tunnels change), Client.RebuildTunnels (tunnels change), Client.UpdateApex (only apex changes). For every case the save runs in a child process with RLIMIT_FSIZE=n: mode efbig enumerates EVERY n in 0..len(new)+2 (thorough tier: all cases; quick tier: 2 generated cases, the others take 0, 1, every YAML line boundary -1/0/+1, the end and 60 sampled n; write fails with EFBIG, process stops), mode kill takes n=0, len-1, len and sampled n (SIGXFSZ kills the process inside write). Oracle: the file loaded by client.NewConfig equals the previous or the new config in certificate, key and tunnels; for n>=len(new) it is the new one. Non-trivial: the cut interrupts the save (n < len(new bytes)), n=0 being a stop right after open/truncate. Distinct = distinct (case, mode, n).")
-	rec.Assume("a process stop leaves exactly the bytes the kernel accepted before it (RLIMIT_FSIZE semantics: the crossing write is shortened to the limit, the next one fails); page-cache loss on power failure is not modelled", "stray temporary files next to the config are allowed", "the previous file exists and loads (a first save has nothing to lose)")
+	rec.Rule("Case = (previous config, new config, save path, fault). Configs: PEM certificate (1-2 blocks), PEM key (one real ed25519 key per run, else random PEM of 3 sizes), 0..5 tunnels over http/https/tcp/unix targets with YAML-hostile option strings; old file mode 0600/0644, optionally with a hand-written comment; save paths Config.writeFile (certificate+key+tunnels change), Client.RebuildTunnels (tunnels change), Client.UpdateApex (only apex changes). The save runs in a child process (re-exec of the test binary). Fault family 1, short writes (RLIMIT_FSIZE=n): mode efbig enumerates EVERY n in 0..len(new)+2 (thorough: all cases; quick: 2 generated cases, the others take 0, 1, every YAML line boundary -1/0/+1, the end and 60 sampled n; write fails with EFBIG, process stops), mode kill takes n=0, len-1, len and sampled n (SIGXFSZ kills the process inside write). Fault family 2, crash at system-call boundaries: an uninterrupted save of the prepared child is traced once (strace attached to the child's locked thread, classes %file,%desc) to discover the file operations the save issues (openat, fchmod, write..., fsync, close, rename..., unlink..., whatever appears; only read-only calls such as stat/read/fcntl/epoll are skipped); then for every operation i the child is re-run and killed with SIGKILL on ENTERING that call (strace -e inject=<syscall>:signal=SIGKILL:when=<k>), i.e. after operations 1..i-1 completed and before operation i (thorough: every operation of every case; quick: witness + first generated case every operation, two more cases every non-write operation plus first/last write). Oracle: after the stop the config path exists and client.NewConfig loads the previous or the new config (certificate, key, tunnels); when nothing was interrupted it is the new one. Non-trivial: the fault interrupts the save (n < len(new bytes), or the process was killed at the boundary). Distinct = distinct (case, fault).")
+	rec.Assume("a process stop leaves exactly what the completed system calls put on disk (RLIMIT_FSIZE: the crossing write is shortened to the limit, the next one fails; strace injection: the call being entered is not executed); page-cache loss on power failure is not modelled", "stray temporary/backup files next to the config are allowed", "the previous file exists and loads (a first save has nothing to lose)", "the save's system calls run on the thread the child locked itself to (Go issues file calls on the calling goroutine's thread); an injection that does not fire is counted and judged as an uninterrupted save")
 	rec.Exhaustive(false)
 
 	r := rand.New(rand.NewSource(ev.ShardSeed()))
@@ -467,8 +511,13 @@ func TestC45(t *testing.T) {
 	} else {
 		t.Cleanup(func() { os.RemoveAll(base) })
 	}
-	nCases := ev.N(8, 120)
-	killPerCase := ev.Pick(3, 12)
+	nCases := ev.N(8, 96)
+	syscallPass := true
+	if _, err := exec.LookPath("strace"); err != nil {
+		syscallPass = false
+		rec.Inconclusive("strace-not-installed-syscall-boundaries-not-enumerated")
+	}
+	killPerCase := ev.Pick(2, 12)
 
 	var cases []c45Case
 	// witness case first: fixed, small, deterministic
@@ -601,10 +650,25 @@ func TestC45(t *testing.T) {
 			rec.Add("cases_with_line_boundaries_and_sampled_cuts", 1)
 		}
 
+		var judgeAt func(mode string, cut int64, res c45Result, img []byte, killed bool, sc *scPoint)
 		judge := func(mode string, cut int64, res c45Result, img []byte, killed bool) {
+			judgeAt(mode, cut, res, img, killed, nil)
+		}
+		judgeAt = func(mode string, cut int64, res c45Result, img []byte, killed bool, sc *scPoint) {
 			nt := cut >= 0 && cut < L
 			labels := []string{"mode:" + mode, "save:" + c.SavePath}
 			key := fmt.Sprintf("%s|%s|%d|%x", c.Name, mode, cut, sha256.Sum256([]byte(fmt.Sprint(c.doc()))))
+			where := fmt.Sprintf("stopped after %d bytes (%s)", cut, mode)
+			if sc != nil {
+				// crash at a system-call boundary: interrupted iff the process was killed there
+				nt = killed
+				labels = append(labels, "boundary:before-"+sc.Name)
+				key = fmt.Sprintf("%s|syscall|%s#%d|%x", c.Name, sc.Name, sc.K, sha256.Sum256([]byte(fmt.Sprint(c.doc()))))
+				where = fmt.Sprintf("process killed on entering file operation %d of %d of the save, %s call #%d: %s", sc.Ordinal, sc.Total, sc.Name, sc.K, sc.Line)
+				if !killed {
+					where = fmt.Sprintf("injection at %s call #%d did not fire, save ran to completion", sc.Name, sc.K)
+				}
+			}
 			var got c45State
 			var perr error
 			isOld, isNew := false, false
@@ -649,6 +713,10 @@ func TestC45(t *testing.T) {
 
 			d := c.doc()
 			d["mode"], d["cut"], d["newLen"], d["fileLen"], d["saveErr"], d["image"] = mode, cut, L, res.Length, res.Err, string(img)
+			if sc != nil {
+				d["crashPoint"], d["operationsOfUninterruptedSave"], d["directoryAfterCrash"] = sc, sc.Sequence, sc.DirAfter
+				delete(d, "cut")
+			}
 			if res.Class == "old" {
 				d["image"] = "(previous bytes, unchanged)"
 			}
@@ -658,7 +726,7 @@ func TestC45(t *testing.T) {
 			}
 			if !nt { // the whole save fits: must be the new config
 				if !isNew {
-					report(c45SigComplete, d, "RLIMIT_FSIZE=%d >= len(new)=%d but the file is not the new config (load error: %v)", cut, L, perr)
+					report(c45SigComplete, d, "%s, but the file is not the new config (load error: %v)", where, perr)
 				}
 				return
 			}
@@ -666,6 +734,9 @@ func TestC45(t *testing.T) {
 				return
 			}
 			sig := c45SigCorrupt
+			if res.Class == "missing" {
+				sig = c45SigMissing // nothing at the config path at all
+			}
 			if res.Class != "missing" && res.Class != "old" && int64(len(img)) < L && bytes.Equal(img, newBytes[:len(img)]) {
 				sig = c45SigTruncated // the live file was truncated and re-written in place
 			}
@@ -677,7 +748,7 @@ func TestC45(t *testing.T) {
 			if perr == nil {
 				what = fmt.Sprintf("loads, but certificate-equal(old/new)=%v/%v key-equal=%v/%v tunnels=%s", got.Cert == c.Old.Cert, got.Cert == c.New.Cert, got.Key == c.Old.Key, got.Key == c.New.Key, tunnelsKey(got.Tunnels))
 			}
-			report(sig, d, "save (%s) of a %d-byte config stopped after %d bytes (%s): file has %d bytes and is neither the previous nor the new configuration: %s", c.SavePath, L, cut, mode, res.Length, what)
+			report(sig, d, "save (%s) of a %d-byte config %s: file has %d bytes and is neither the previous nor the new configuration: %s", c.SavePath, L, where, res.Length, what)
 		}
 
 		for _, res := range results[1:] {
@@ -691,7 +762,7 @@ func TestC45(t *testing.T) {
 
 		// pass 2: abrupt stops (SIGXFSZ kills the child), one child per cut
 		kc := map[int64]bool{0: true, L - 1: true, L: true}
-		for len(kc) < killPerCase+3 && int64(len(kc)) < L {
+		for len(kc) < killPerCase+2 && int64(len(kc)) < L {
 			kc[r.Int63n(L)] = true
 		}
 		if ci == 0 {
@@ -747,11 +818,88 @@ func TestC45(t *testing.T) {
 			}
 			judge("kill", n, res, img, killed)
 		}
+
+		// pass 3: crash at every system-call boundary of the save (strace attaches to the
+		// prepared child and kills it with SIGKILL on entering the N-th call of one syscall)
+		if !syscallPass || (!ev.Thorough() && ci > 3) {
+			return // quick tier: the witness and the first three generated cases (one per save path)
+		}
+		job.Kind, job.Cuts, job.Plan = "syscall", nil, ""
+		if err := restoreOld(job, oldBytes); err != nil {
+			broken("restore: %v", err)
+			return
+		}
+		seq, _, mach := runSyscallChild(job, dir, "", 0)
+		if mach != "" {
+			broken("syscall discovery: %s", mach)
+			return
+		}
+		if res := observe(job, oldBytes, -1); res.Class == "old" || res.Class == "missing" {
+			if !sameIdentity(c.Old, c.New) || res.Class == "missing" {
+				broken("syscall discovery run did not save: %s", res.Class)
+				return
+			}
+		}
+		points := crashPoints(seq)
+		if !ev.Thorough() && ci > 1 {
+			// quick tier, later cases: every boundary that is not a write, plus the first and
+			// the last write (byte-granular write cuts are the RLIMIT_FSIZE passes above)
+			nWrites := 0
+			for _, pt := range points {
+				if pt.Name == "write" {
+					nWrites++
+				}
+			}
+			var kept []scPoint
+			for _, pt := range points {
+				if pt.Name != "write" || pt.K == 1 || pt.K == nWrites {
+					kept = append(kept, pt)
+				}
+			}
+			points = kept
+			rec.Add("cases_with_write_boundaries_thinned", 1)
+		} else {
+			rec.Add("cases_with_every_syscall_boundary_enumerated", 1)
+		}
+		if len(points) == 0 {
+			broken("syscall discovery found no file operation in the save: %v", seq)
+			return
+		}
+		rec.Add("syscall_crash_points", int64(len(points)))
+		for _, pt := range points {
+			pt := pt
+			if err := restoreOld(job, oldBytes); err != nil {
+				broken("restore: %v", err)
+				return
+			}
+			got, killed, mach := runSyscallChild(job, dir, pt.Name, pt.K)
+			if mach != "" {
+				broken("syscall injection %s#%d: %s", pt.Name, pt.K, mach)
+				return
+			}
+			if !killed {
+				rec.Add("syscall_injections_that_did_not_fire", 1)
+			} else if n := len(got); n == 0 || got[n-1].Name != pt.Name {
+				broken("syscall injection %s#%d killed the child somewhere else: %v", pt.Name, pt.K, got)
+				return
+			}
+			res := observe(job, oldBytes, -1)
+			img, _ := base64.StdEncoding.DecodeString(res.Image)
+			ents, _ := os.ReadDir(job.Dir)
+			for _, e := range ents {
+				pt.DirAfter = append(pt.DirAfter, e.Name())
+			}
+			cut := int64(0) // interrupted
+			if !killed {
+				cut = L
+			}
+			judgeAt("syscall", cut, res, img, killed, &pt)
+		}
 	}
 
 	// cases are independent (own directory each): a small pool hides the
 	// ~0.2 s start-up of every child process
-	sem := make(chan struct{}, 4)
+	sem := make(chan struct{}, 6)
 	var wg sync.WaitGroup
 	for ci, c := range cases {
 		wg.Add(1)
@@ -769,6 +917,173 @@ func TestC45(t *testing.T) {
 	if violations > 0 {
 		t.Fatalf("%s (and %d more violation reports)", firstFail, violations-1)
 	}
+}
+
+// ---- crash at system-call boundaries (strace fault injection) -----------------
+
+type scOp struct {
+	Name string `json:"syscall"`
+	Line string `json:"line"`
+}
+
+type scPoint struct {
+	Name     string   `json:"syscall"`
+	K        int      `json:"nthCallOfThatSyscall"`
+	Ordinal  int      `json:"ordinalAmongFileOperations"`
+	Total    int      `json:"fileOperationsInSave"`
+	Line     string   `json:"asSeenInUninterruptedSave"`
+	Sequence []string `json:"-"`
+	DirAfter []string `json:"-"`
+}
+
+// calls that cannot change what is on disk (and runtime housekeeping that shows up in
+// the %desc class); a crash before one of them equals the crash before the next operation
+var scReadOnly = map[string]bool{
+	"read": true, "pread64": true, "readv": true, "preadv": true, "preadv2": true,
+	"stat": true, "lstat": true, "fstat": true, "newfstatat": true, "statx": true, "fstatfs": true, "statfs": true,
+	"lseek": true, "fcntl": true, "ioctl": true, "access": true, "faccessat": true, "faccessat2": true,
+	"readlink": true, "readlinkat": true, "getdents64": true, "getcwd": true,
+	"epoll_ctl": true, "epoll_pwait": true, "epoll_pwait2": true, "epoll_wait": true, "epoll_create1": true,
+	"mmap": true, "dup": true, "dup2": true, "dup3": true, "pipe2": true, "eventfd2": true,
+	"poll": true, "ppoll": true, "select": true, "pselect6": true, "restart_syscall": true,
+	"execve": true, "chdir": true, "fchdir": true, "inotify_add_watch": true,
+}
+
+func crashPoints(seq []scOp) []scPoint {
+	var pts []scPoint
+	count := map[string]int{}
+	var lines []string
+	for _, op := range seq {
+		if !scReadOnly[op.Name] {
+			lines = append(lines, op.Line)
+		}
+	}
+	for _, op := range seq {
+		if scReadOnly[op.Name] {
+			continue
+		}
+		count[op.Name]++
+		pts = append(pts, scPoint{Name: op.Name, K: count[op.Name], Ordinal: len(pts) + 1, Total: len(lines), Line: op.Line, Sequence: lines})
+	}
+	return pts
+}
+
+// runSyscallChild starts the prepared child, attaches strace to its locked thread
+// (with a SIGKILL injection on entering the k-th call of syscall `name`, or plain
+// tracing when name is empty), releases the child and returns the file/descriptor
+// calls the thread made from the release on.
+func runSyscallChild(job *c45Job, dir string, name string, k int) (ops []scOp, killed bool, machinery string) {
+	jb, _ := json.Marshal(job)
+	jp := filepath.Join(dir, "job-syscall.json")
+	if err := os.WriteFile(jp, jb, 0o644); err != nil {
+		return nil, false, err.Error()
+	}
+	ctx, cancel := context.WithTimeout(context.Background(), 5*time.Minute) // liveness only
+	defer cancel()
+	pr, pw, err := os.Pipe()
+	if err != nil {
+		return nil, false, err.Error()
+	}
+	defer pw.Close()
+	cmd := exec.CommandContext(ctx, os.Args[0], "-test.run", "^TestC45Child$", "-test.count", "1", "-test.timeout", "0")
+	cmd.Env = append(os.Environ(), c45ChildEnv+"="+jp)
+	cmd.Dir = dir
+	cmd.ExtraFiles = []*os.File{pr}
+	stdout, err := cmd.StdoutPipe()
+	if err != nil {
+		pr.Close()
+		return nil, false, err.Error()
+	}
+	var cerr bytes.Buffer
+	cmd.Stderr = &cerr
+	if err := cmd.Start(); err != nil {
+		pr.Close()
+		return nil, false, err.Error()
+	}
+	pr.Close()
+	br := bufio.NewReader(stdout)
+	tid := 0
+	var seen strings.Builder
+	for {
+		line, err := br.ReadString('\n')
+		seen.WriteString(line)
+		if _, e := fmt.Sscanf(strings.TrimSpace(line), "C45CHILD-READY tid=%d", &tid); e == nil && tid > 0 {
+			break
+		}
+		if err != nil {
+			cmd.Process.Kill()
+			cmd.Wait()
+			return nil, false, "child did not get ready: " + tail(seen.String()+cerr.String(), 1500)
+		}
+	}
+	go io.Copy(io.Discard, br)
+
+	logPath := filepath.Join(dir, "strace.log")
+	os.Remove(logPath)
+	args := []string{"-p", fmt.Sprint(tid), "-o", logPath, "-e", "trace=%file,%desc"}
+	if name != "" {
+		args = append(args, "-e", fmt.Sprintf("inject=%s:signal=SIGKILL:when=%d", name, k))
+	}
+	st := exec.CommandContext(ctx, "strace", args...)
+	sterr, err := st.StderrPipe()
+	if err != nil {
+		cmd.Process.Kill()
+		cmd.Wait()
+		return nil, false, err.Error()
+	}
+	if err := st.Start(); err != nil {
+		cmd.Process.Kill()
+		cmd.Wait()
+		return nil, false, "cannot start strace: " + err.Error()
+	}
+	sbr := bufio.NewReader(sterr)
+	var stSeen strings.Builder
+	for {
+		line, err := sbr.ReadString('\n')
+		stSeen.WriteString(line)
+		if strings.Contains(line, "attached") {
+			break
+		}
+		if err != nil {
+			cmd.Process.Kill()
+			cmd.Wait()
+			st.Wait()
+			return nil, false, "strace did not attach: " + tail(stSeen.String(), 800)
+		}
+	}
+	go io.Copy(io.Discard, sbr)
+	pw.Write([]byte{'x'}) // release the child: the save starts now
+	werr := cmd.Wait()
+	st.Wait()
+	ws, _ := cmd.ProcessState.Sys().(syscall.WaitStatus)
+	killed = ws.Signaled() && ws.Signal() == syscall.SIGKILL
+	if !killed && !(ws.Exited() && ws.ExitStatus() == 0) {
+		return nil, false, fmt.Sprintf("child ended unexpectedly (%v, %v): %s", ws, werr, tail(cerr.String(), 1500))
+	}
+	if ctx.Err() != nil {
+		return nil, false, "liveness budget of the syscall child expired"
+	}
+	raw, err := os.ReadFile(logPath)
+	if err != nil {
+		return nil, killed, "no strace log: " + err.Error()
+	}
+	for _, line := range strings.Split(string(raw), "\n") {
+		if line == "" || strings.HasPrefix(line, "---") || strings.HasPrefix(line, "+++") || strings.HasPrefix(line, "<...") {
+			continue
+		}
+		i := strings.IndexByte(line, '(')
+		if i <= 0 {
+			continue
+		}
+		if len(line) > 220 {
+			line = line[:220] + "..."
+		}
+		ops = append(ops, scOp{Name: line[:i], Line: line})
+	}
+	if name == "" && killed {
+		return ops, killed, "child was killed during the discovery run"
+	}
+	return ops, killed, ""
 }
 
 func parseResults(t *testing.T, out string) []c45Result {
